@@ -25,3 +25,140 @@ Definition is_none {A : Type} (o : option A) : bool := match o with None => true
 
 (* an Optional[int] used as an int after the source tested it against None *)
 Definition ozd (o : option Z) : Z := match o with Some z => z | None => 0 end.
+
+(* ------------------------------------------------------------------------------------------ *)
+(* Results of functions that may raise, loop on fuel, or reach a branch the spec leaves
+   untranslated: an abnormal exit is never a normal-looking value. *)
+Inductive exn := ValueError | TypeError | KeyError | IndexError.
+
+Inductive res (A : Type) :=
+| RDone (a : A)          (* normal completion *)
+| RRaise (e : exn)       (* `raise E(...)` *)
+| RFuel                  (* a fuelled `while` ran out of fuel *)
+| RSkip.                 (* a branch declared untranslated (spec "skip_branches") was reached *)
+Arguments RDone {A} a.
+Arguments RRaise {A} e.
+Arguments RFuel {A}.
+Arguments RSkip {A}.
+
+(* `while cond: body` in a generator; [post] is the code after the loop *)
+Fixpoint run_while {S B : Type} (fuel : nat) (cond : S -> bool) (body : S -> list B * S * ctl)
+         (post : S -> list B) (s : S) : res (list B) :=
+  if cond s then
+    match fuel with
+    | O => RFuel
+    | Datatypes.S f =>
+      let '(out, s', c) := body s in
+      match c with
+      | Cont => match run_while f cond body post s' with
+                | RDone l => RDone (out ++ l)
+                | x => x
+                end
+      | Brk => RDone (out ++ post s')
+      | Ret => RDone out
+      end
+    end
+  else RDone (post s).
+
+(* loops of value-returning functions and of procedures (no yields): the body says how it left *)
+Inductive step (S R : Type) := SCont (s : S) | SBrk (s : S) | SRet (r : R).
+Arguments SCont {S R} s.
+Arguments SBrk {S R} s.
+Arguments SRet {S R} r.
+
+Fixpoint iter_for {S A R : Type} (body : S -> A -> step S R) (post : S -> R) (s : S) (xs : list A) : R :=
+  match xs with
+  | [] => post s
+  | x :: r =>
+    match body s x with
+    | SCont s' => iter_for body post s' r
+    | SBrk s' => post s'
+    | SRet v => v
+    end
+  end.
+
+Fixpoint iter_while {S R : Type} (fuel : nat) (cond : S -> bool) (body : S -> step S (res R))
+         (post : S -> res R) (s : S) : res R :=
+  if cond s then
+    match fuel with
+    | O => RFuel
+    | Datatypes.S f =>
+      match body s with
+      | SCont s' => iter_while f cond body post s'
+      | SBrk s' => post s'
+      | SRet v => v
+      end
+    end
+  else post s.
+
+(* truthiness of a list *)
+Definition nonempty {A : Type} (l : list A) : bool := match l with [] => false | _ => true end.
+
+(* range(n) *)
+Definition zrange (n : Z) : list Z := map Z.of_nat (seq 0 (Z.to_nat n)).
+
+(* xs[i] with Python's negative indices; an index out of range (IndexError) gives the default:
+   the generated definitions describe the executions that do not raise *)
+Definition py_index {A : Type} (d : A) (l : list A) (i : Z) : A :=
+  let n := Z.of_nat (length l) in
+  let j := if i <? 0 then n + i else i in
+  if (0 <=? j) && (j <? n) then nth (Z.to_nat j) l d else d.
+
+(* bisect.bisect_right(xs, v, key=key): the binary search of the standard library, as it runs
+   on ANY list (sorted or not):  lo, hi = 0, len(xs);  while lo < hi: mid = (lo + hi) // 2;
+   if v < key(xs[mid]): hi = mid  else: lo = mid + 1;  return lo *)
+Fixpoint bisect_go {A : Type} (fuel : nat) (key : A -> Z) (l : list A) (v : Z) (lo hi : Z) : Z :=
+  match fuel with
+  | O => lo
+  | Datatypes.S f =>
+    if lo <? hi then
+      let mid := (lo + hi) / 2 in
+      match nth_error l (Z.to_nat mid) with
+      | Some x => if v <? key x then bisect_go f key l v lo mid else bisect_go f key l v (mid + 1) hi
+      | None => lo
+      end
+    else lo
+  end.
+Definition bisect_right {A : Type} (key : A -> Z) (l : list A) (v : Z) : Z :=
+  bisect_go (S (length l)) key l v 0 (Z.of_nat (length l)).
+
+(* an Optional[Interval] used as an Interval after the source tested it against None *)
+Definition oivld (o : option ivl) : ivl := match o with Some i => i | None => mkI None None Plain end.
+
+(* a `while` nested in the body of a generator's `for`: what it yielded and the final values of
+   its variables; None = out of fuel.  The body says whether to go on (false = `break`). *)
+Fixpoint sub_while {S B : Type} (fuel : nat) (cond : S -> bool) (body : S -> list B * S * bool) (s : S)
+  : option (list B * S) :=
+  if cond s then
+    match fuel with
+    | O => None
+    | Datatypes.S f =>
+      let '(out, s', go) := body s in
+      if go then
+        match sub_while f cond body s' with
+        | Some (l, s'') => Some (out ++ l, s'')
+        | None => None
+        end
+      else Some (out, s')
+    end
+  else Some ([], s).
+
+(* a generator's `for` whose body contains such loops: the body may run out of fuel (None) *)
+Fixpoint run_for_o {S A B : Type} (body : S -> A -> option (list B * S * ctl)) (post : S -> list B)
+         (s : S) (xs : list A) : res (list B) :=
+  match xs with
+  | [] => RDone (post s)
+  | x :: r =>
+    match body s x with
+    | None => RFuel
+    | Some (out, s', c) =>
+      match c with
+      | Cont => match run_for_o body post s' r with
+                | RDone l => RDone (out ++ l)
+                | e => e
+                end
+      | Brk => RDone (out ++ post s')
+      | Ret => RDone out
+      end
+    end
+  end.
